@@ -9,6 +9,7 @@ import (
 	"testing"
 	"time"
 
+	"cosmossdk.io/math"
 	storetypes "cosmossdk.io/store/types"
 	sdk "github.com/cosmos/cosmos-sdk/types"
 
@@ -18,6 +19,7 @@ import (
 	rollapptypes "github.com/dymensionxyz/dymension/v3/x/rollapp/types"
 	dymnstypes "github.com/dymensionxyz/dymension/v3/x/dymns/types"
 	irotypes "github.com/dymensionxyz/dymension/v3/x/iro/types"
+	lockuptypes "github.com/dymensionxyz/dymension/v3/x/lockup/types"
 	seqtypes "github.com/dymensionxyz/dymension/v3/x/sequencer/types"
 )
 
@@ -472,7 +474,249 @@ func c19Exec3(r *Run, line string, f []string) string {
 	case "planrkey":
 		return Hex(irotypes.PlansByRollappKey(string(unhex(f[1]))))
 	}
+	return c19Exec4(r, line, f)
+}
+
+// ---- lockup reference keys and iterator bounds --------------------------------------------------------
+// The key builders are the real (unexported) functions of x/lockup/keeper, reached by symbol name in
+// c19_link_test.go; the iterator bounds are composed from them exactly as iterator.go does (its
+// statement listing is pinned in Lemmas/GenEqKeys.lean).
+
+func c19Lock(owner []byte, dur int64, end time.Time, denoms [][]byte, id uint64) lockuptypes.PeriodLock {
+	var coins sdk.Coins
+	for _, d := range denoms {
+		coins = append(coins, sdk.Coin{Denom: string(d), Amount: math.NewInt(1)})
+	}
+	return lockuptypes.PeriodLock{ID: id, Owner: sdk.AccAddress(owner).String(), Duration: time.Duration(dur), EndTime: end, Coins: coins}
+}
+
+// c19StoredRefs: the store keys addLockRefs/addLockRefByKey write for the lock
+func c19StoredRefs(l lockuptypes.PeriodLock, unlocking bool) ([][]byte, error) {
+	var refs [][]byte
+	var err error
+	if unlocking {
+		refs, err = lockupLockRefKeys(l)
+	} else {
+		refs, err = lockupDurationLockRefKeys(l)
+	}
+	if err != nil {
+		return nil, err
+	}
+	var out [][]byte
+	for _, k := range refs {
+		out = append(out, lockupCombineKeys(lockupCombineKeys(lockupUnlockingPrefix(unlocking), k), sdk.Uint64ToBigEndian(l.ID)))
+	}
+	return out, nil
+}
+
+func c19In(start, end, k []byte) bool {
+	return bytes.Compare(start, k) <= 0 && (end == nil || bytes.Compare(k, end) < 0)
+}
+
+func c19HexList(s string) [][]byte {
+	if s == "-" {
+		return nil
+	}
+	var out [][]byte
+	for _, x := range strings.Split(s, ",") {
+		out = append(out, unhex(x))
+	}
+	return out
+}
+
+func c19Exec4(r *Run, line string, f []string) string {
+	u := func(i int) uint64 { v, _ := strconv.ParseUint(f[i], 10, 64); return v }
+	i64 := func(i int) int64 { v, _ := strconv.ParseInt(f[i], 10, 64); return v }
+	switch f[0] {
+	case "lkcomb":
+		var parts [][]byte
+		for _, x := range f[1:] {
+			parts = append(parts, unhex(x))
+		}
+		return Hex(lockupCombineKeys(parts...))
+	case "lktime":
+		t, ok := c19Time(f, 1)
+		if !ok {
+			return "invalid-date"
+		}
+		return Hex(lockupGetTimeKey(t))
+	case "lkdur":
+		return Hex(lockupGetDurationKey(time.Duration(i64(1))))
+	case "lkrefs":
+		t, ok := c19Time(f, 4)
+		if !ok {
+			return "invalid-date"
+		}
+		ks, err := c19StoredRefs(c19Lock(unhex(f[2]), i64(3), t, c19HexList(f[11]), u(12)), f[1] == "1")
+		if err != nil {
+			return "err"
+		}
+		// monitor: the reference keys of one lock are pairwise distinct
+		seen := map[string]bool{}
+		var hx []string
+		for _, k := range ks {
+			if seen[string(k)] && len(c19HexList(f[11])) == len(uniqBytes(c19HexList(f[11]))) {
+				r.Violate("C19/lockup_ref_keys/duplicate-key-for-one-lock", Hex(k), line)
+			}
+			seen[string(k)] = true
+			hx = append(hx, Hex(k))
+		}
+		return strings.Join(hx, ",")
+	case "lkscan":
+		return c19LkScan(r, line, f)
+	}
 	return "bad-op"
+}
+
+func uniqBytes(xs [][]byte) [][]byte {
+	seen := map[string]bool{}
+	var out [][]byte
+	for _, x := range xs {
+		if !seen[string(x)] {
+			seen[string(x)] = true
+			out = append(out, x)
+		}
+	}
+	return out
+}
+
+// c19LkScan: lkscan <kind> <scan arguments> | <entry arguments>
+func c19LkScan(r *Run, line string, f []string) string {
+	kind := f[1]
+	bar := 0
+	for i, x := range f {
+		if x == "|" {
+			bar = i
+		}
+	}
+	if bar == 0 {
+		return "bad-op"
+	}
+	a, e := f[2:bar], f[bar+1:]
+	pu := func(s string) uint64 { v, _ := strconv.ParseUint(s, 10, 64); return v }
+	pi := func(s string) int64 { v, _ := strconv.ParseInt(s, 10, 64); return v }
+	up := lockupUnlockingPrefix
+	// entry: index of the wanted family in the real lockRefKeys output of a one-denom lock
+	entry := func(unlocking bool, owner, denom []byte, dur int64, end time.Time, id uint64, idx int) []byte {
+		ks, err := c19StoredRefs(c19Lock(owner, dur, end, [][]byte{denom}, id), unlocking)
+		if err != nil || idx >= len(ks) {
+			return nil
+		}
+		return ks[idx]
+	}
+	someOwner, someDenom := bytes.Repeat([]byte{7}, 20), []byte("adym")
+	epoch := time.Unix(0, 0).UTC()
+	var start, end, k []byte
+	var want, hyp bool // expected membership per the property; hyp=false: outside the stated hypothesis
+	hyp = true
+	switch kind {
+	case "matured", "accbefore", "denafter":
+		o := 0
+		var comp []byte
+		if kind != "matured" {
+			comp, o = unhex(a[0]), 1
+		}
+		T, ok := c19Time(a, o)
+		if !ok {
+			return "invalid-date"
+		}
+		eo := 0
+		var ecomp []byte
+		if kind != "matured" {
+			ecomp, eo = unhex(e[0]), 1
+		}
+		t, ok := c19Time(e, eo)
+		if !ok {
+			return "invalid-date"
+		}
+		id := pu(e[eo+7])
+		tk := lockupGetTimeKey(T)
+		switch kind {
+		case "matured":
+			pfx := lockupCombineKeys(up(true), lockuptypes.KeyPrefixLockTimestamp)
+			start, end = pfx, storetypes.PrefixEndBytes(lockupCombineKeys(pfx, tk))
+			k = entry(true, someOwner, someDenom, 1, t, id, 4)
+			want = !t.After(T)
+		case "accbefore":
+			pfx := lockupCombineKeys(up(true), lockuptypes.KeyPrefixAccountLockTimestamp, comp)
+			start, end = pfx, storetypes.PrefixEndBytes(lockupCombineKeys(pfx, tk))
+			k = entry(true, ecomp, someDenom, 1, t, id, 5)
+			want = bytes.Equal(comp, ecomp) && !t.After(T)
+			hyp = len(comp) == len(ecomp)
+		case "denafter":
+			pfx := lockupCombineKeys(up(true), lockuptypes.KeyPrefixDenomLockTimestamp, comp)
+			start, end = storetypes.PrefixEndBytes(lockupCombineKeys(pfx, tk)), storetypes.PrefixEndBytes(pfx)
+			k = entry(true, someOwner, ecomp, 1, t, id, 6)
+			want = bytes.Equal(comp, ecomp) && t.After(T)
+			hyp = !bytes.Contains(comp, []byte{0xff}) && !bytes.Contains(ecomp, []byte{0xff}) && len(comp) > 0
+		}
+		hyp = hyp && T.Year() <= 9999 && t.Year() <= 9999
+	case "denlonger", "accall", "accdur", "accshorter", "denall":
+		unl := a[0] == "1"
+		comp := unhex(a[1])
+		ecomp := unhex(e[0])
+		d2, id := pi(e[1]), pu(e[2])
+		var d1 int64
+		if len(a) > 2 {
+			d1 = pi(a[2])
+		}
+		c0 := func(x int64) int64 {
+			if x < 0 {
+				return 0
+			}
+			return x
+		}
+		switch kind {
+		case "denlonger":
+			pfx := lockupCombineKeys(up(unl), lockuptypes.KeyPrefixDenomLockDuration, comp)
+			start, end = lockupCombineKeys(pfx, lockupGetDurationKey(time.Duration(d1))), storetypes.PrefixEndBytes(pfx)
+			k = entry(unl, someOwner, ecomp, d2, epoch, id, 2)
+			want = bytes.Equal(comp, ecomp) && c0(d1) <= c0(d2)
+			hyp = !bytes.Contains(comp, []byte{0xff}) && !bytes.Contains(ecomp, []byte{0xff}) && len(comp) > 0
+		case "accall":
+			pfx := lockupCombineKeys(up(unl), lockuptypes.KeyPrefixAccountLockDuration, comp)
+			start, end = pfx, storetypes.PrefixEndBytes(pfx)
+			k = entry(unl, ecomp, someDenom, d2, epoch, id, 1)
+			want = bytes.Equal(comp, ecomp)
+			hyp = len(comp) == len(ecomp)
+		case "accdur":
+			pfx := lockupCombineKeys(lockupCombineKeys(up(unl), lockuptypes.KeyPrefixAccountLockDuration, comp), lockupGetDurationKey(time.Duration(d1)))
+			start, end = pfx, storetypes.PrefixEndBytes(pfx)
+			k = entry(unl, ecomp, someDenom, d2, epoch, id, 1)
+			want = bytes.Equal(comp, ecomp) && c0(d1) == c0(d2)
+			hyp = len(comp) == len(ecomp)
+		case "accshorter":
+			pfx := lockupCombineKeys(up(unl), lockuptypes.KeyPrefixAccountLockDuration, comp)
+			start, end = pfx, lockupCombineKeys(pfx, lockupGetDurationKey(time.Duration(d1)))
+			k = entry(unl, ecomp, someDenom, d2, epoch, id, 1)
+			want = bytes.Equal(comp, ecomp) && c0(d2) < c0(d1)
+			hyp = len(comp) == len(ecomp)
+		case "denall":
+			// LockIteratorDenom: exported, no callers in the hub (latent)
+			pfx := lockupCombineKeys(up(unl), lockuptypes.KeyPrefixDenomLockDuration, comp)
+			start, end = pfx, storetypes.PrefixEndBytes(pfx)
+			k = entry(unl, someOwner, ecomp, d2, epoch, id, 2)
+			want = bytes.Equal(comp, ecomp)
+			hyp = false
+		}
+	default:
+		return "bad-op"
+	}
+	if k == nil {
+		return "err"
+	}
+	in := c19In(start, end, k)
+	if in != want {
+		switch {
+		case hyp:
+			r.Violate("C19/lockup_scan/"+kind+"/membership", fmt.Sprintf("scan returned %v, expected %v", in, want), line)
+		case kind == "denall":
+			r.Hit("lockup-denom-prefix-scan-returns-extension-denom(latent: LockIteratorDenom has no callers)")
+		default:
+			r.Hit("lockup-scan-outside-hypothesis-differs/" + kind)
+		}
+	}
+	return strconv.FormatBool(in)
 }
 
 var c19Nums = []uint64{0, 1, 2, 9, 10, 11, 99, 100, 101, 999, 1000, 1001, 65535, 1 << 32, 1<<63 - 1, 1 << 63, 1<<64 - 2, 1<<64 - 1,
@@ -553,6 +797,116 @@ func c19Gen3(r *Run, g *Rng, emit func(kind, line string)) {
 	case 8:
 		emit("plankey", fmt.Sprintf("plankey %d", c19Num(g)))
 		emit("planrkey", "planrkey "+Hex([]byte(c19RollappID(g))))
+	}
+}
+
+var c19Denoms = []string{"adym", "adymx", "adym/", "gamm/pool/1", "gamm/pool/10", "gamm/pool/11", "gamm/pool/2", "ibc/27394FB092D2ECCD56123C74F36E4C1F926001CEADA9CA97EA622B25F41E5EB2", "ibc/27394FB092D2ECCD56123C74F36E4C1F926001CEADA9CA97EA622B25F41E5EB", "a", "ab", "zz~", "zz~~"}
+var c19Durs = []int64{-1 << 63, -1, 0, 1, 255, 256, 1000000000, 3600000000000, 86400000000000, 14 * 86400000000000, 1<<63 - 1, 1 << 32, 65535, 65536}
+
+// c19Owner: address bytes of length 20 or 32 (what the hub's address verifier admits; rarely another
+// length, which the real builders refuse), pairs sharing long prefixes, bytes 0x00/0xff included
+func c19Owner(g *Rng) []byte {
+	n := []int{20, 20, 20, 20, 32, 32, 32, 20, 32, 20, 32, 20, 32, 1, 21}[g.Intn(15)]
+	b := make([]byte, n)
+	fill := []byte{0x00, 0xff, 0x11, 0xfe}[g.Intn(4)]
+	for i := range b {
+		b[i] = fill
+	}
+	if g.Chance(60) {
+		b[n-1] = byte(g.Intn(4))
+	}
+	if g.Chance(20) {
+		b[g.Intn(n)] = 0xff
+	}
+	return b
+}
+
+func c19Gen4(r *Run, g *Rng, emit func(kind, line string)) {
+	dn := func() string { return Hex([]byte(c19Denoms[g.Intn(len(c19Denoms))])) }
+	dur := func() int64 { return c19Durs[g.Intn(len(c19Durs))] }
+	tm := func() time.Time { return c19GenTime(g, false) }
+	id := func() uint64 { return c19Num(g) }
+	switch g.Intn(12) {
+	case 0:
+		n := 1 + g.Intn(4)
+		var parts []string
+		for i := 0; i < n; i++ {
+			parts = append(parts, Hex(c19Bytes(g)))
+		}
+		emit("lkcomb", "lkcomb "+strings.Join(parts, " "))
+	case 1:
+		emit("lktime", "lktime "+c19TimeFields(c19GenTime(g, g.Chance(10))))
+	case 2:
+		d := dur()
+		if g.Chance(30) {
+			d = int64(g.U64())
+		}
+		emit("lkdur", fmt.Sprintf("lkdur %d", d))
+	case 3:
+		n := g.Intn(4)
+		var ds []string
+		for i := 0; i < n; i++ {
+			ds = append(ds, dn())
+		}
+		dl := "-"
+		if n > 0 {
+			dl = strings.Join(ds, ",")
+		}
+		emit("lkrefs", fmt.Sprintf("lkrefs %d %s %d %s %s %d", g.Intn(2), Hex(c19Owner(g)), dur(), c19TimeFields(tm()), dl, id()))
+	case 4:
+		T := tm()
+		t := c19Near(g, T)
+		if g.Chance(30) || t.Year() < 0 || t.Year() > 9999 {
+			t = tm()
+		}
+		emit("lkscan-matured", fmt.Sprintf("lkscan matured %s | %s %d", c19TimeFields(T), c19TimeFields(t), id()))
+	case 5, 6:
+		T := tm()
+		t := c19Near(g, T)
+		if g.Chance(30) || t.Year() < 0 || t.Year() > 9999 {
+			t = tm()
+		}
+		if g.Bool() {
+			a, b := c19Owner(g), c19Owner(g)
+			if g.Chance(40) {
+				b = a
+			}
+			emit("lkscan-accbefore", fmt.Sprintf("lkscan accbefore %s %s | %s %s %d", Hex(a), c19TimeFields(T), Hex(b), c19TimeFields(t), id()))
+		} else {
+			a, b := dn(), dn()
+			if g.Chance(40) {
+				b = a
+			}
+			emit("lkscan-denafter", fmt.Sprintf("lkscan denafter %s %s | %s %s %d", a, c19TimeFields(T), b, c19TimeFields(t), id()))
+		}
+	case 7, 8:
+		a, b := dn(), dn()
+		if g.Chance(40) {
+			b = a
+		}
+		emit("lkscan-denlonger", fmt.Sprintf("lkscan denlonger %d %s %d | %s %d %d", g.Intn(2), a, dur(), b, dur(), id()))
+	case 9, 10:
+		a, b := c19Owner(g), c19Owner(g)
+		if g.Chance(40) {
+			b = a
+		}
+		if g.Chance(15) && len(a) < 32 { // b extends a (different address lengths)
+			b = append(append([]byte{}, a...), make([]byte, 32-len(a))...)
+		}
+		switch g.Intn(3) {
+		case 0:
+			emit("lkscan-accall", fmt.Sprintf("lkscan accall %d %s | %s %d %d", g.Intn(2), Hex(a), Hex(b), dur(), id()))
+		case 1:
+			emit("lkscan-accdur", fmt.Sprintf("lkscan accdur %d %s %d | %s %d %d", g.Intn(2), Hex(a), dur(), Hex(b), dur(), id()))
+		case 2:
+			emit("lkscan-accshorter", fmt.Sprintf("lkscan accshorter %d %s %d | %s %d %d", g.Intn(2), Hex(a), dur(), Hex(b), dur(), id()))
+		}
+	case 11:
+		a, b := dn(), dn()
+		if g.Chance(30) {
+			b = a
+		}
+		emit("lkscan-denall", fmt.Sprintf("lkscan denall %d %s | %s %d %d", g.Intn(2), a, b, dur(), id()))
 	}
 }
 
@@ -643,13 +997,16 @@ func TestC19(t *testing.T) {
 		ch := fmt.Sprintf("channel-%d", g.Intn(300))
 		return fmt.Sprintf("%d %s %d %d %s %d", g.Intn(2), Hex([]byte(c19RollappID(g))), g.BoundaryU64(), g.Intn(4), Hex([]byte(ch)), g.BoundaryU64())
 	}
-	n := r.N(10000, 150000)
+	n := r.N(14000, 200000)
 	for i := 0; i < n; i++ {
-		if g.Chance(60) {
-			if g.Chance(50) {
+		if g.Chance(70) {
+			switch g.Intn(3) {
+			case 0:
 				c19Gen2(r, g, emit)
-			} else {
+			case 1:
 				c19Gen3(r, g, emit)
+			case 2:
+				c19Gen4(r, g, emit)
 			}
 			continue
 		}
